@@ -42,16 +42,16 @@ def gen_doc(rng, fmt, quadfmt, existing_ids):
 
 
 def gen_case(rng):
-    target = rng.choice(["graph", "dataset"])
+    target = rng.choice(["graph", "dataset", "dataset", "view"])
     init_ids = [rng.choice(["N" + "%032x" % rng.getrandbits(128), "b0", "a"]) for _ in range(2)]
     init = [[["b", init_ids[0]], ["u", P[0]], ["b", init_ids[1]], None], [["u", "http://example.org/s0"], ["u", P[1]], ["l", "keep", None, None], None]]
-    if target == "dataset":
+    if target == "dataset" or (target == "view" and rng.random() < 0.5):
         init.append([["b", init_ids[0]], ["u", P[0]], ["l", "in-g1", None, None], ["u", G[0]]])
     docs = []
     for _ in range(rng.choice([2, 2, 3, 4, 5])):
         if docs and rng.random() < 0.3:
             docs.append(dict(docs[-1], truncate=False)); continue
-        fmt = rng.choice(TRIPLE_FMTS if target == "dataset" else GRAPH_FMTS)
+        fmt = rng.choice(TRIPLE_FMTS if target == "dataset" else GRAPH_FMTS + (["nquads", "nquads"] if target == "view" else []))
         quadfmt = target == "dataset" and fmt in QUAD_FMTS
         docs.append(gen_doc(rng, fmt, quadfmt, init_ids))
     return dict(kind="seq", target=target, init=init, docs=docs)
@@ -162,16 +162,20 @@ def triggers(doc):
 
 def run_case(case, st=None):
     st = st if st is not None else {}
-    tgt = Dataset() if case["target"] == "dataset" else Graph()
+    tgt = Dataset() if case["target"] in ("dataset", "view") else Graph()
     for q in case["init"]:
         s, p, o = dec(q[0]), dec(q[1]), dec(q[2])
-        if case["target"] == "dataset" and q[3]: tgt.add((s, p, o, dec(q[3])))
+        if case["target"] in ("dataset", "view") and q[3]: tgt.add((s, p, o, dec(q[3])))
         else: tgt.add((s, p, o))
+    whole = tgt
+    if case["target"] == "view":
+        # documents are parsed through a named-graph view of the dataset; the whole dataset is what must be conserved
+        tgt = whole.graph(URIRef(G[0]))
     carve = not case.get("no_carve")
     seen_labels = set(); shared = False
     tainted = False  # once a listed finding merged nodes, later conservation checks are no longer meaningful
     for i, doc in enumerate(case["docs"]):
-        old = snapshot(tgt)
+        old = snapshot(whole)
         text = render(doc)
         if doc.get("truncate"):
             text = text[: max(1, len(text) * 2 // 3)]
@@ -185,7 +189,7 @@ def run_case(case, st=None):
             failed = True
             if not doc.get("truncate"):
                 return ("parse-raises", "document %d (%s) was rejected: %s: %s\n%s" % (i, fmt, type(ex).__name__, str(ex)[:200], text[:400]))
-        new = snapshot(tgt)
+        new = snapshot(whole)
         st["parse:" + fmt] = st.get("parse:" + fmt, 0) + 1
         if not old <= new:
             return ("old-content-lost", "parsing document %d (%s) removed or altered existing content: %s" % (i, fmt, sorted(old - new, key=str)[:2]))
@@ -195,6 +199,8 @@ def run_case(case, st=None):
         old_ids = {k[1] for q in old for k in q if k and k[0] == "b"}
         if labels & old_ids: shared = True
         seen_labels |= labels
+        if case["target"] == "view" and fmt not in GRAPH_FMTS:
+            continue   # where a quad document lands when parsed through a named-graph view is not settled by the statement: only conservation is judged
         if failed or doc.get("truncate") or trig or tainted:
             if trig: tainted = True
             continue
@@ -204,6 +210,7 @@ def run_case(case, st=None):
         D = set()
         for q in doc["quads"]:
             g = dec(q[3]) if (quadfmt and q[3]) else None
+            if case["target"] == "view": g = URIRef(G[0])
             if fmt == "trix" and case["target"] == "dataset" and g is None: g = URIRef("http://example.org/gdoc")
             o_ = dec(q[2])
             if fmt == "hext" and isinstance(o_, Literal) and o_.datatype is None and not o_.language:
